@@ -368,8 +368,8 @@ class Sweep:
             ctx.hist("target_strata", s.split(":")[0])
         ctx.hist("program_targets", prog.name, len(tgts))
         nrel = ctx.pick(1, 3)
-        # thorough: at most 8 (seeded) targets per stratum with options=None
-        full_sample = {s: [m[i] for i in sorted(rng.sample(range(len(m)), 8))] for s, m in strata.items() if len(m) > 8}
+        # thorough: at most 5 (seeded) targets per stratum with options=None
+        full_sample = {s: [m[i] for i in sorted(rng.sample(range(len(m)), 5))] for s, m in strata.items() if len(m) > 5}
         for cls in self.classes:
             name = cls.__name__
             if only is not None and name not in only:
@@ -386,7 +386,7 @@ class Sweep:
                 for s, members in sorted(strata.items()):
                     key = (name, label, s)
                     if full:
-                        cand = members if (grid_full or len(members) <= 8) else full_sample[s]
+                        cand = members if (grid_full or len(members) <= 5) else full_sample[s]
                     elif self.use_hint and key not in self.rel and hint_key(key) not in self.hint \
                             and s not in extra_strata:
                         continue
@@ -498,8 +498,8 @@ def run(ctx):
         "options dict); programs: 5 fixed Fortran templates, seeded vlib.fortgen loop programs, LFRic/GOcean invokes "
         "and algorithm layers from test_files, and (thorough) trees derived by one accepted transformation; targets: "
         "quick = one representative per (transformation, node stratum) with options=None, then the full option grid "
-        "on every representative that was accepted or rejected for a non-modal reason, thorough = every node and "
-        "node list of the fixed templates; non-trivial = apply raised TransformationError (the antecedent of C26)")
+        "on every representative that was accepted or rejected for a non-modal reason, thorough = up to 5 seeded targets per stratum of "
+        "the fixed templates; non-trivial = apply raised TransformationError (the antecedent of C26)")
     ctx.cov["trusted_base"] = core.BASE_TRUST + [
         "props/C26/translate.py (static ast translator) and its tables MUTATORS / PURE_REVIEWED / NONTRANS_SITES: the "
         "classification of mutating primitives is trusted, not verified (an audit heuristic runs on every translation)",
@@ -565,7 +565,7 @@ def run(ctx):
             ctx.log("program %-45s attempts=%d failures so far=%d" % (prog.name, sw.n_attempts - n0, len(sw.failures)))
         # trees derived by one accepted transformation (histories)
         rng = ctx.rng("derived")
-        nder = ctx.pick(1, 4)
+        nder = ctx.pick(1, 3)
         for prog in [p for p in progs if p.kind == "generic"]:
             acc = sw.accepted.get(prog.name, [])
             seen, picks = set(), []
